@@ -10,8 +10,9 @@ for the source, position inside the file, every quoted 'N | text' line equals
 line N of the source; for single faults some reported position is on line L.
 """
 import re
+import zlib
 
-from .. import gen_prog
+from .. import gen_prog, mutate
 from . import c03, c05, c06, c07, c08, c09, c13
 
 ID = "C19"
@@ -53,7 +54,7 @@ def check_diagnostics(errs, files, fault=None):
         n = len(src_lines)
         if line:
             ln, cn = int(line), int(col)
-            if not (1 <= ln <= n + 1):
+            if not (1 <= ln <= max(n, 1)):
                 out.append(("line-outside-file", "line %d of a %d-line file" % (ln, n)))
             else:
                 width = len(src_lines[ln - 1]) if ln <= n else 0
@@ -98,6 +99,19 @@ def injected(tier):
                 n += 1
                 v = "\n".join(lines[:i] + [new] + lines[i + 1:]) + "\n"
                 yield {"id": "c19-i%d" % n, "family": "c19.injected." + kind, "mode": "single", "src": v, "fault_line": i + 1, "tags": ["fault:" + kind, "base:" + case["family"]]}
+        # the LAST line cut after every token prefix, with every ending: the parser runs into the end of the input,
+        # and the end of the input is on the last line
+        i = max(k for k, l in enumerate(lines) if l.strip())
+        toks = [t for _, t in mutate.tokenize(lines[i])]
+        ind = lines[i][:len(lines[i]) - len(lines[i].lstrip(" "))]
+        for cut in range(1, len(toks)):
+            if not toks[cut - 1].strip():
+                continue
+            head = ind + "".join(toks[:cut]).strip()
+            for ename, tail in (("nl", "\n"), ("none", ""), ("space-nl", " \n"), ("nl-nl", "\n\n"), ("crlf", "\r\n")):
+                n += 1
+                v = "\n".join(lines[:i] + [head]) + tail
+                yield {"id": "c19-i%d" % n, "family": "c19.injected.truncated-last-line", "mode": "single", "src": v, "fault_line": i + 1, "tags": ["fault:truncated-last-line", "ending:" + ename, "base:" + case["family"]]}
 
 
 def cases(tier, seed):
@@ -125,11 +139,11 @@ def cases(tier, seed):
     for mod, name in ((c05, "c05"), (c06, "c06"), (c07, "c07"), (c09, "c09")):
         for c in mod.cases(tier, seed):
             if c["expect"] == "err" and c.get("fault_line"):
-                if quick and (hash(c["id"]) % 3):
+                if quick and (zlib.crc32(c["id"].encode()) % 3):
                     continue
                 yield {"id": "c19-" + c["id"], "family": "c19.typefault." + name, "mode": "single", "src": c["src"], "fault_line": c["fault_line"], "tags": c["tags"][:4] + ["from:" + c["family"]]}
     for c in c08.cases(tier, seed):
-        if c["expect"] == "err" and (not quick or hash(c["id"]) % 4 == 0):
+        if c["expect"] == "err" and (not quick or zlib.crc32(c["id"].encode()) % 4 == 0):
             yield {"id": "c19-" + c["id"], "family": "c19.typefault.c08", "mode": "single", "src": c["src"], "fault_line": None, "tags": c["tags"][:3]}
     yield from injected(tier)
     # multi-file projects with exactly one faulty file: the right FILE
